@@ -224,7 +224,9 @@ def flow_worker(cfg):
 def proposal_lattice(quick):
     out = []
     lps = ["truncated_gaussian", "gaussian", "uniform", "uniform_nsphere", "uniform_nball", "flow"]
-    rps = [None, "rescaletobounds", "logit", {"x0": "inversion", "x1": "offset"}, "zscore", {"x0": "angle-2pi"}]
+    # only reparameterisations whose forward map is deterministic: folded (inversion) and
+    # auxiliary-radius (angle) maps send a generated point forwards to a different latent point
+    rps = [None, "rescaletobounds", "logit", {"x0": "offset", "x1": "rescaletobounds"}, "zscore", {"x0": {"reparameterisation": "scaleandshift", "scale": 2.0, "shift": 0.5}}]
     for lp in lps:
         for rp in (rps[:3] if quick else rps):
             for ft in (("realnvp",) if quick else ("realnvp", "maf", "nsf")):
@@ -245,10 +247,6 @@ def proposal_worker(cfg):
         torch.manual_seed(3)
         np.random.seed(3)
         model = make("G2")
-        if cfg["reparameterisations"] == {"x0": "angle-2pi"}:
-            from checks.c07 import box_model
-
-            model = box_model(["x0", "x1"], [[0.0, 2 * np.pi], [-1.0, 1.0]])
         cv = cfg["latent_prior"] in ("truncated_gaussian", "uniform_nsphere", "uniform_nball")
         prop = FlowProposal(
             model, output=out, poolsize=50, plot=False, latent_prior=cfg["latent_prior"], constant_volume_mode=cv,
@@ -281,6 +279,11 @@ def proposal_worker(cfg):
                     corr = (prop.alt_dist.log_prob(zt) - prop.flow.model.base_distribution_log_prob(zt)).numpy()
             a, b = log_q[:m], log_q_f[:m] + corr
             fin = np.isfinite(a) & np.isfinite(b)
+            # float32 flows: comparisons are decidable only where eps * local contraction is small
+            with torch.no_grad():
+                base_f = prop.flow.model.base_distribution_log_prob(torch.from_numpy(z_f[:m]).type(torch.get_default_dtype())).numpy()
+            amp_p = np.exp(np.clip(np.abs(log_q_f[:m] - base_f) / max(1, prop.rescaled_dims), 0, 60))
+            fin &= (1e-7 * amp_p) < 1e-4
             if len(log_q) != len(log_q_f):
                 # duplicating reparameterisations return both images when mapped forwards
                 fin &= True
